@@ -212,7 +212,7 @@ def run_case(case):
     # a second vantage point: another root that windows one of the (already frozen) subtrees - the same map object
     # seen from two parents at different bases / under different names (CPU bus and DMA bus, say)
     second = None
-    subs = [m for m in all_maps if m is not root and m._frozen]
+    subs = [m for m in all_maps if m is not root and getattr(m, "_frozen", True)]
     if subs and rng.random() < 0.5:
         sub = rng.choice(subs)
         aw2 = min(sub.addr_width + rng.randint(1, 3), 64)
